@@ -255,6 +255,16 @@ def generate(ctx, n_ops):
             # the model and the property): take roots of non-negative magnitudes only
             if ctx.sess.qs[a].magnitude < 0:
                 line = "X\tabs\tq%d" % a
+            elif rng.random() < 0.6:
+                # a root that exists: q**n first, then the n-th root of that (every magnitude kind,
+                # every degree - a root of a random unit almost always raises)
+                n = rng.choice([2, 2, 3, -2, 4, -1, 1])
+                res = yield "X\tpow\tq%d\tn:%d" % (a, n)
+                emitted += 1
+                if not res.startswith("ok\tq"):
+                    continue
+                ctx.nq += 1
+                line = "X\troot\tq%d\tn:%d" % (ctx.nq - 1, n)
             else:
                 line = "X\troot\tq%d\tn:%d" % (a, ctx.small_int(-3, 3))
         elif r < 0.93:
